@@ -73,6 +73,30 @@ def _tag(v):
     return GARBAGE
 
 
+def _sibling_warmup(alg, names):
+    """State must not leak between algebras of one process: before anything is recorded, every spelling of every blade is
+    looked up (unrecorded) in a SIBLING algebra with the same generator labels and signature whose blades of grade >= 2
+    are all oriented the other way (first two generators of the spelling swapped)."""
+    import itertools
+    try:
+        from kingdon import Algebra
+        if alg.d > 5:
+            return
+        sib_names = [nm if len(nm) < 3 else 'e' + nm[2] + nm[1] + nm[3:] for nm in names]
+        sib = Algebra(signature=[int(x) for x in alg.signature], basis=sib_names, start_index=alg.start_index)
+        x = sib.multivector(values=list(range(1, len(sib_names) + 1)), keys=tuple(sib.canon2bin.values()))
+        for nm in sib_names:
+            for perm in itertools.islice(itertools.permutations(nm[1:]), 24):
+                sp = 'e' + ''.join(perm)
+                for f in (lambda: getattr(x, sp), lambda: getattr(sib.blades, sp), lambda: sib.multivector(**{sp: 1})):
+                    try:
+                        f()
+                    except Exception:   # noqa: BLE001
+                        pass
+    except Exception:   # noqa: BLE001
+        pass
+
+
 def run_job(job):
     import kdriver as K
     from drive_ops import algebra_options
@@ -86,6 +110,7 @@ def run_job(job):
     graded = bool(opts.get('graded'))
     gens = [nm[1:] for nm in names if len(nm) == 2]
     events = []
+    _sibling_warmup(alg, names)
 
     def respell(nm):
         ch = list(nm[1:])
